@@ -116,7 +116,7 @@ impl Prop for C11 {
     }
     fn components(&self) -> Value {
         json!({"real": ["sentinel-core: flow / hotspot / circuit-breaker managers (load_rules, load_rules_of_resource, controller and breaker reuse), slots, checkers, EntryBuilder"],
-               "stub": ["clock and sleep (virtual, hook H1)", "getrandom (seeded)", "logger (none)"]})
+               "stub": ["clock and sleep (virtual, hook H1)", "getrandom (seeded)", "logger (a sink that formats every record of the library and discards it)"]})
     }
 
     fn generate(&self, rng: &mut Rng, slot_ns: u64, _avoid: bool) -> Value {
